@@ -33,4 +33,5 @@ INNER = {"slice": "slice_fn"}
 for _n, _spec in LEAVES.items():
     register(leaf, id=f"C16.leaf.{_n}", prop="C16",
              target=closure("microjs.vm", "VM._make_string_method", INNER.get(_n, _n)),
-             env=("s",), native=_native(_n), summaries=SUMM, bind={"SPEC": _spec})
+             env=("s",), native=_native(_n), summaries=SUMM, bind={"SPEC": _spec},
+             timeout_ms=(45000 if _n in ("slice", "lastIndexOf", "substring") else 10000))
